@@ -224,7 +224,7 @@ func paramCalls(fn *ssa.Function, i int) []*ssa.Call {
 
 func ruleC15Once(cx *Ctx) {
 	const rule = "C15.once"
-	cx.R.Rule(rule, 7, "hashmap.Map.Compute invokes the update function exactly once on every entry->return path and never on a path that afterwards takes a retry edge")
+	cx.R.Rule(rule, 2, "hashmap.Map.Compute invokes the update function exactly once on every entry->return path and never on a path that afterwards takes a retry edge")
 	fn := cx.need(rule, hmPkg, "Map", "Compute")
 	if fn == nil {
 		return
@@ -270,7 +270,7 @@ func ruleC15Once(cx *Ctx) {
 
 func ruleC15RMW(cx *Ctx) {
 	const rule = "C15.rmw"
-	cx.R.Rule(rule, 12, "in Compute the update function and every slot/meta/link store execute with the root-bucket mutex held, and no release of it lies between the callback and a store")
+	cx.R.Rule(rule, 4, "in Compute the update function and every slot/meta/link store execute with the root-bucket mutex held, and no release of it lies between the callback and a store")
 	fn := cx.need(rule, hmPkg, "Map", "Compute")
 	if fn == nil {
 		return
@@ -314,7 +314,7 @@ func ruleC15RMW(cx *Ctx) {
 
 func ruleC15Recheck(cx *Ctx) {
 	const rule = "C15.recheck"
-	cx.R.Rule(rule, 10, "after locking the root bucket Compute tests 'resize in progress' and then 'newer table exists' (for the table it indexed) before it reads or writes any slot; each failing edge unlocks and retries")
+	cx.R.Rule(rule, 3, "after locking the root bucket Compute tests 'resize in progress' and then 'newer table exists' (for the table it indexed) before it reads or writes any slot; each failing edge unlocks and retries")
 	fn := cx.need(rule, hmPkg, "Map", "Compute")
 	rip := cx.need(rule, hmPkg, "Map", "resizeInProgress")
 	nte := cx.need(rule, hmPkg, "Map", "newerTableExists")
@@ -403,7 +403,7 @@ func firstEffect(b *ssa.BasicBlock) ssa.Instruction {
 
 func ruleC15LockPair(cx *Ctx) {
 	const rule = "C15.lockpair"
-	cx.R.Rule(rule, 7, "every mutex acquired in package hashmap is released on all paths to return")
+	cx.R.Rule(rule, 2, "every mutex acquired in package hashmap is released on all paths to return")
 	mu := cx.needField(rule, hmPkg, "bucket", "mu")
 	rmu := cx.needField(rule, hmPkg, "Map", "resizeMu")
 	if mu == nil || rmu == nil {
@@ -422,7 +422,7 @@ func ruleC15LockPair(cx *Ctx) {
 				ok, w := MustFollow(in, func(x ssa.Instruction) bool {
 					return mutexOp(x, f, "Unlock") && addrKey(recvValue(x)) == key
 				}, exitReturn)
-				cx.R.Check(ok, rule, name, fmt.Sprintf("Lock#%d(%s)", n, f.Name()), cx.P.where(in), "the acquired mutex is released on every path to return", w...)
+				cx.R.Check(ok, rule, name, fmt.Sprintf("Lock#%d(%s)", n, fname(f)), cx.P.where(in), "the acquired mutex is released on every path to return", w...)
 			}
 		})
 	}
@@ -430,7 +430,7 @@ func ruleC15LockPair(cx *Ctx) {
 
 func ruleC15Publish(cx *Ctx) {
 	const rule = "C15.publish"
-	cx.R.Rule(rule, 4, "resize: table.Store(new) ≺ resizing.Store(false) ≺ Broadcast, and every return after winning the resizing flag clears it and wakes the waiters")
+	cx.R.Rule(rule, 1, "resize: table.Store(new) ≺ resizing.Store(false) ≺ Broadcast, and every return after winning the resizing flag clears it and wakes the waiters")
 	fn := cx.need(rule, hmPkg, "Map", "resize")
 	table := cx.needField(rule, hmPkg, "Map", "table")
 	resizing := cx.needField(rule, hmPkg, "Map", "resizing")
@@ -442,24 +442,41 @@ func ruleC15Publish(cx *Ctx) {
 	var cas *ssa.Call
 	var pub ssa.Instruction
 	var clears, bcasts []ssa.Instruction
+	isDirectClear := func(in ssa.Instruction) bool {
+		if !atomicOp(in, resizing, "Store") {
+			return false
+		}
+		if a := callArgs(in); len(a) == 1 {
+			if b, ok := constBool(a[0]); ok && !b {
+				return true
+			}
+		}
+		return false
+	}
+	isDirectBcast := func(in ssa.Instruction) bool {
+		return isStdMethod(in, "sync", "Cond", "Broadcast") && sameField(recvField(in), cond)
+	}
+	// helpers extracted from resize (finishResize) count through must-perform summaries
+	helperDoes := func(in ssa.Instruction, what func(ssa.Instruction) bool) bool {
+		c := calleeOf(in)
+		return c != nil && c.Pkg != nil && strings.HasSuffix(c.Pkg.Pkg.Path(), hmPkg) && origin(c) != origin(fn) && mustPerform(c, what, map[*ssa.Function]int{})
+	}
 	allInstrs(fn, func(in ssa.Instruction) {
 		switch {
 		case atomicOp(in, resizing, "CompareAndSwap"):
 			cas, _ = in.(*ssa.Call)
 		case isStdMethod(in, "sync/atomic", "Pointer", "Store") && sameField(recvField(in), table):
 			pub = in
-		case atomicOp(in, resizing, "Store"):
-			if a := callArgs(in); len(a) == 1 {
-				if b, ok := constBool(a[0]); ok && !b {
-					clears = append(clears, in)
-				}
-			}
-		case isStdMethod(in, "sync", "Cond", "Broadcast") && sameField(recvField(in), cond):
+		}
+		if isDirectClear(in) || helperDoes(in, isDirectClear) {
+			clears = append(clears, in)
+		}
+		if isDirectBcast(in) || helperDoes(in, isDirectBcast) {
 			bcasts = append(bcasts, in)
 		}
 	})
 	if cas == nil || pub == nil || len(clears) == 0 || len(bcasts) == 0 {
-		cx.R.Violate(rule, name, "shape", cx.P.Pos(fn.Pos()), "resize no longer has flag CAS / table publish / flag clear / broadcast")
+		cx.R.Violate(rule, name, "shape", cx.P.Pos(fn.Pos()), "NOT SATISFIED: resize no longer has flag CAS / table publish / flag clear / broadcast")
 		return
 	}
 	var clearAfterPub, bcastAfterClear ssa.Instruction
@@ -472,7 +489,7 @@ func ruleC15Publish(cx *Ctx) {
 	for _, c := range clears {
 		ok := false
 		for _, b := range bcasts {
-			if instrDominates(c, b) {
+			if instrDominates(c, b) || (b == c && helperOrders(c, isDirectClear, isDirectBcast)) {
 				ok = true
 				if c == clearAfterPub {
 					bcastAfterClear = b
@@ -519,7 +536,7 @@ func ruleC15Publish(cx *Ctx) {
 
 func ruleC15Current(cx *Ctx) {
 	const rule = "C15.current"
-	cx.R.Rule(rule, 3, "resize migrates the table it loads after winning the resizing flag, never the possibly stale table it was called with")
+	cx.R.Rule(rule, 1, "resize migrates the table it loads after winning the resizing flag, never the possibly stale table it was called with")
 	fn := cx.need(rule, hmPkg, "Map", "resize")
 	table := cx.needField(rule, hmPkg, "Map", "table")
 	resizing := cx.needField(rule, hmPkg, "Map", "resizing")
@@ -570,7 +587,7 @@ func ruleC15Current(cx *Ctx) {
 		withClosures(fn, func(f *ssa.Function) {
 			allInstrs(f, func(in ssa.Instruction) {
 				c := calleeOf(in)
-				if c == nil || !strings.HasPrefix(c.Name(), "copyBucket") {
+				if c == nil || !strings.HasPrefix(cname(c), "copyBucket") {
 					return
 				}
 				a := callArgs(in)
@@ -743,7 +760,7 @@ func ruleC15KeyCheck(cx *Ctx) {
 
 func ruleC15Atomic(cx *Ctx) {
 	const rule = "C15.atomic"
-	cx.R.Rule(rule, 6, "slot reads in the lock-free Get are atomic loads; slot stores in functions that run concurrently with Get are atomic stores, except into a bucket allocated in the same function or in the table-under-construction helpers")
+	cx.R.Rule(rule, 2, "slot reads in the lock-free Get are atomic loads; slot stores in functions that run concurrently with Get are atomic stores, except into a bucket allocated in the same function or in the table-under-construction helpers")
 	get := cx.need(rule, hmPkg, "Map", "Get")
 	if get == nil {
 		return
@@ -776,7 +793,7 @@ func ruleC15Atomic(cx *Ctx) {
 		for _, fn := range cx.P.ModuleFuncs() {
 			allInstrs(fn, func(in ssa.Instruction) {
 				if isCallTo(in, atb) {
-					cx.R.Check(strings.HasPrefix(origin(fn).Name(), "copyBucket"), rule, funcName(fn), "appendToBucket caller", cx.P.where(in), "the non-atomic append is used only while building an unpublished table")
+					cx.R.Check(strings.HasPrefix(cname(fn), "copyBucket"), rule, funcName(fn), "appendToBucket caller", cx.P.where(in), "the non-atomic append is used only while building an unpublished table")
 				}
 			})
 		}
@@ -785,7 +802,7 @@ func ruleC15Atomic(cx *Ctx) {
 
 func ruleC15MetaOrder(cx *Ctx) {
 	const rule = "C15.metaorder"
-	cx.R.Rule(rule, 3, "in Compute the meta byte is written before the node pointer on insert and cleared before it on delete; a new overflow bucket is fully initialised before it is linked")
+	cx.R.Rule(rule, 1, "in Compute the meta byte is written before the node pointer on insert and cleared before it on delete; a new overflow bucket is fully initialised before it is linked")
 	fn := cx.need(rule, hmPkg, "Map", "Compute")
 	meta := cx.needField(rule, hmPkg, "bucket", "meta")
 	next := cx.needField(rule, hmPkg, "bucket", "next")
@@ -866,7 +883,7 @@ func insertionStore(fn *ssa.Function, a slotAccess) bool {
 
 func ruleC15Size(cx *Ctx) {
 	const rule = "C15.size"
-	cx.R.Rule(rule, 4, "size accounting in Compute: delete paths add -1 once, insert paths add +1 once, update / no-op paths add nothing; Size sums the stripes")
+	cx.R.Rule(rule, 1, "size accounting in Compute: delete paths add -1 once, insert paths add +1 once, update / no-op paths add nothing; Size sums the stripes")
 	fn := cx.need(rule, hmPkg, "Map", "Compute")
 	addSize := cx.need(rule, hmPkg, "mapTable", "addSize")
 	if fn == nil || addSize == nil {
@@ -941,7 +958,7 @@ func ruleC15Size(cx *Ctx) {
 
 func ruleC15Range(cx *Ctx) {
 	const rule = "C15.range"
-	cx.R.Rule(rule, 3, "Range copies each bucket chain under its root lock and calls the user function only after releasing it; the cache's node iterator yields only alive, unexpired nodes")
+	cx.R.Rule(rule, 1, "Range copies each bucket chain under its root lock and calls the user function only after releasing it; the cache's node iterator yields only alive, unexpired nodes")
 	fn := cx.need(rule, hmPkg, "Map", "Range")
 	if fn == nil {
 		return
@@ -996,7 +1013,7 @@ func ruleC15Range(cx *Ctx) {
 // ruleC15CopyAll: a resize copies every bucket of the old table.
 func ruleC15CopyAll(cx *Ctx) {
 	const rule = "C15.copyall"
-	cx.R.Rule(rule, 4, "resize copies every bucket of the old table: the serial loop runs i = 0..len-1; the parallel variant starts goroutines for c = 0..chunks-1 over [c*S, min((c+1)*S, len)) with S = ceil(len/chunks), each copying i = start..end-1, and waits for all of them before publishing")
+	cx.R.Rule(rule, 1, "resize copies every bucket of the old table: the serial loop runs i = 0..len-1; the parallel variant starts goroutines for c = 0..chunks-1 over [c*S, min((c+1)*S, len)) with S = ceil(len/chunks), each copying i = start..end-1, and waits for all of them before publishing")
 	fn := cx.need(rule, hmPkg, "Map", "resize")
 	if fn == nil {
 		return
@@ -1017,18 +1034,10 @@ func ruleC15CopyAll(cx *Ctx) {
 			a := callArgs(in)
 			if ia, ok := a[0].(*ssa.IndexAddr); ok {
 				if ph, ok := ia.Index.(*ssa.Phi); ok {
-					zero := false
-					for _, e := range ph.Edges {
-						if c, ok := constInt(e); ok && c == 0 {
-							zero = true
-						}
-					}
-					for _, u := range usesOf(ph) {
-						if b, ok := u.(*ssa.BinOp); ok && b.Op == token.LSS && b.X == ssa.Value(ph) {
-							if c, ok := b.Y.(*ssa.Call); ok && isBuiltinCall(c, "len") {
-								serialOK = zero
-								L = b.Y
-							}
+					if _, bound, ok := inductionRangeVar(ph); ok {
+						if c, ok := bound.(*ssa.Call); ok && isBuiltinCall(c, "len") {
+							serialOK = true
+							L = bound
 						}
 					}
 				}
@@ -1086,21 +1095,12 @@ func ruleC15CopyAll(cx *Ctx) {
 	inner := false
 	if cl != nil {
 		allInstrs(cl, func(in ssa.Instruction) {
-			if c := calleeOf(in); c != nil && strings.HasPrefix(c.Name(), "copyBucket") {
+			if c := calleeOf(in); c != nil && strings.HasPrefix(cname(c), "copyBucket") {
 				if ia, ok := callArgs(in)[0].(*ssa.IndexAddr); ok {
 					if ph, ok := ia.Index.(*ssa.Phi); ok {
-						fromStart, toEnd := false, false
-						for _, e := range ph.Edges {
-							if e == ssa.Value(cl.Params[0]) {
-								fromStart = true
-							}
+						if init, bound, ok := loopInduction(ph); ok {
+							inner = init == ssa.Value(cl.Params[0]) && bound == ssa.Value(cl.Params[1])
 						}
-						for _, u := range usesOf(ph) {
-							if b, ok := u.(*ssa.BinOp); ok && b.Op == token.LSS && b.X == ssa.Value(ph) && b.Y == ssa.Value(cl.Params[1]) {
-								toEnd = true
-							}
-						}
-						inner = fromStart && toEnd
 					}
 				}
 			}
@@ -1123,21 +1123,29 @@ func ruleC15CopyAll(cx *Ctx) {
 
 // inductionRangeVar: phi = phi(0, phi+1) bounded by phi < bound (any value).
 func inductionRangeVar(ph *ssa.Phi) (uint64, ssa.Value, bool) {
-	hasInit, hasStep := false, false
-	for _, e := range ph.Edges {
-		if c, ok := constUint(e); ok && c == 0 {
-			hasInit = true
-		} else if isAddConst(e, ph, 1) {
-			hasStep = true
-		}
-	}
-	if !hasInit || !hasStep {
+	init, bound, ok := loopInduction(ph)
+	if !ok {
 		return 0, nil, false
 	}
-	for _, u := range usesOf(ph) {
-		if b, ok := u.(*ssa.BinOp); ok && b.Op == token.LSS && b.X == ssa.Value(ph) {
-			return 0, b.Y, true
-		}
+	c0, isC := constUint(init)
+	return 0, bound, isC && c0 == 0
+}
+
+// helperOrders: inside the helper called by `in`, every first() instruction is followed by a then() instruction.
+func helperOrders(in ssa.Instruction, first, then func(ssa.Instruction) bool) bool {
+	c := calleeOf(in)
+	if c == nil {
+		return false
 	}
-	return 0, nil, false
+	ok := true
+	found := false
+	allInstrs(c, func(x ssa.Instruction) {
+		if first(x) {
+			found = true
+			if f, _ := MustFollow(x, then, exitReturn); !f {
+				ok = false
+			}
+		}
+	})
+	return ok && found
 }
